@@ -1,14 +1,14 @@
-\* C01 leg A thorough, 3 replicas (dd(dd(r1,r2),r3)): at most 2 samples per replica on a 5-point
-\* grid (16^3 = 4 096 layouts + 16 identical), readers with at most one Seek (4 targets)
+\* C01 leg A thorough, 5 replicas (four nested pairwise merges): at most 1 sample per replica on a
+\* 3-point grid (4^5 = 1 024 layouts + 4 identical), readers with at most one Seek (2 targets)
 SPECIFICATION Spec
 CONSTANTS InitPen = 5
-          Grid = {0, 1, 6, 11, 17}
-          NumReps = 3
-          MaxLen = 2
+          Grid = {0, 1, 7}
+          NumReps = 5
+          MaxLen = 1
           Ctr = FALSE
           Starts = {0}
           Incs = {0}
-          Targets = {0, 5, 11, 18}
+          Targets = {1, 7}
           EmitMod = 1
           MaxSeeks = 1
           Kinds = {"f"}
